@@ -61,7 +61,7 @@ impl Property for C13 {
         "C13"
     }
     fn rule(&self) -> String {
-        "cases = scope_frag programs (names a-d skewed to collide; multi-local with duplicates, `local x = x`, local functions, closures with (duplicate) parameters, numeric/generic for with names and closures in header expressions, repeat-until, while, do, if/elseif/else, plain/dotted/method function statements; nesting <=3 quick / <=5 thorough). Every name-use token is compared: SemanticModel::find_decl at NoTrace must be the declaring token chosen by the reference resolver (Lua manual 3.5), or a non-local when the reference says global; at the default trace level the same unless the answer differs from the NoTrace answer (go-to-definition alias tracing, not judged). non-trivial = program has >=1 use that sees >=2 visible declarations of its name (shadowing) and >=1 use inside a loop header, an until condition or a function body; distinct = distinct case digest".into()
+        "cases = scope_frag programs (names a-d skewed to collide; multi-local with duplicates, `local x = x`, local functions, closures with (duplicate) parameters, numeric/generic for with names and closures in header expressions, repeat-until, while, do, if/elseif/else, plain/dotted/method function statements; nesting <=3 quick / <=4 thorough). Every name-use token is compared: SemanticModel::find_decl at NoTrace must be the declaring token chosen by the reference resolver (Lua manual 3.5), or a non-local when the reference says global; at the default trace level the same unless the answer differs from the NoTrace answer (go-to-definition alias tracing, not judged). non-trivial = program has >=1 use that sees >=2 visible declarations of its name (shadowing) and >=1 use inside a loop header, an until condition or a function body; distinct = distinct case digest".into()
     }
     fn assumptions(&self) -> Vec<String> {
         vec![
@@ -70,10 +70,10 @@ impl Property for C13 {
         ]
     }
     fn cases(&self, tier: Tier) -> u32 {
-        tier.pick(24_000, 1_500_000)
+        tier.pick(60_000, 600_000)
     }
     fn strategy(&self, tier: Tier) -> BoxedStrategy<Case> {
-        scope_frag::program(tier.pick(3, 5), tier.pick(8, 12)).prop_map(|prog| Case { prog }).boxed()
+        scope_frag::program(tier.pick(3, 4), tier.pick(8, 10)).prop_map(|prog| Case { prog }).boxed()
     }
     fn simplify(&self, c: &Case) -> Vec<Case> {
         c.prog.simplify().into_iter().map(|prog| Case { prog }).collect()
